@@ -11,6 +11,14 @@ def run(R, tier, seed, only=None):
     if only in (None, "retab"):
         import retab_c09
         retab_c09.run(R, tier, seed, drv)
+    if only in (None, "sqlident"):
+        import os
+        import sys
+        sys.path.insert(0, os.path.join(core.VERIF, "engines", "mirsym"))
+        import sqlstr
+        d = core.Driver(drv)
+        sqlstr.check_sqlident(R, d, tier)
+        d.close()
     if only in (None, "capture"):
         k = 2 if tier == "quick" else 3
         fam = families.family_c09(tier, seed)
@@ -20,7 +28,7 @@ def run(R, tier, seed, only=None):
         R.cov.setdefault("bounds", {}).update({"capture_family": "all pipelines of <=2 templates of the relational alphabet over user tables table_0/table_1/table_2 and a user column _expr_0, plus hand-written alias/CTE clashes",
                                                "rows_per_table": k})
     R.cov["trusted_base"] = propcheck.TRUSTED + ["z3 sequence/regex theory", "engines/retab (regex translator)"]
-    R.cov["outside_bounds"] = ["lexical rules of the ten dialects that cannot be executed here", "quoting of identifiers that the regex sends to the quoted branch (sqlparser Display)"]
+    R.cov["outside_bounds"] = ["lexical rules of the ten dialects that cannot be executed here", "quoted identifiers longer than the K-sqlident bound; the `[..]` quote style (no dialect of prqlc uses it)"]
     R.assumptions += propcheck.COMMON_ASSUMPTIONS
 
 
